@@ -118,7 +118,7 @@ def crashInst : Inst :=
     tasks := [⟨"A@G0", "A", 0, "G0", .released, 5, 30, [⟨1, 3, [("CPU", 1)]⟩], 0, 0⟩,
               ⟨"B@G1", "B", 0, "G1", .scheduled, 2, 30, [⟨1, 4, [("GPU", 1)]⟩], 1, 0⟩]
     nOffered := 1
-    nodes := [⟨"A@G0", "A", 0, "G0"⟩, ⟨"B@G1", "B", 0, "G1"⟩]
+    nodes := [⟨"A@G0", "A", 0, "G0", .released⟩, ⟨"B@G1", "B", 0, "G1", .scheduled⟩]
     edges := []
     enforceDeadlines := true, retract := false, releaseTaskgraphs := false, goalSlack := false
     allowed0 := [] }
